@@ -209,3 +209,97 @@ def smartpointer_contract(reg, pointee):
     """class contract of the REAL class Crypto.Util._raw_api.SmartPointer for a registry whose smart pointers hold `pointee`
     objects (e.g. 'obj:native.Mode|none').  _destructor is a native function value."""
     reg.add(ClassContract(SMARTPTR, fields={'_raw_pointer': pointee, '_destructor': 'any'}))
+
+
+# ------------------------------------------------------------------------------------------------ units on the real glue code
+#
+# NOT PROVED: Crypto.Util._raw_api.c_uint8_ptr / get_raw_buffer / VoidPointer (ctypes variants): they are defined inside the
+#   `except ImportError:` handler of a module-level try; the loader resolves the cffi definitions of the try body instead, which
+#   are not the ones in use here (backend == 'ctypes').  Their behaviour is the assumed model at the top of this file.
+# NOT PROVED: a WRITABLE memoryview as `output=`: the engine's memoryview values are read-only snapshots.
+
+U = 'Crypto.Util.'
+SX = U + 'strxor.'
+
+
+def strxor_registry(variant='rw'):
+    from .base import base_registry
+    reg = base_registry()
+    install_glue(reg)
+    nat = Contract('native.strxor.strxor', params={'in1': 'buffer', 'in2': 'buffer', 'out': 'bytearray', 'n': 'int'},
+                   requires=['n == len(in1)', 'len(in2) == n', 'isinstance(out, bytearray) and len(out) == n'],
+                   result='none', modifies=['out'], ensures={'value': 'bytes(out) == spec.modes.xor(old(bytes(in1)), old(bytes(in2)))'},
+                   assumed='src/strxor.c strxor: CVC (C17: reads n bytes of each input, writes n bytes of out; out may alias an input); bounded: bounded/accel.py strxor')
+    natc = Contract('native.strxor.strxor_c', params={'in1': 'buffer', 'c': 'int', 'out': 'bytearray', 'n': 'int'},
+                    requires=['n == len(in1)', '0 <= c and c <= 255', 'isinstance(out, bytearray) and len(out) == n'],
+                    result='none', modifies=['out'], ensures={'value': 'bytes(out) == spec.modes.xor_c(old(bytes(in1)), c)'},
+                    assumed='src/strxor.c strxor_c: CVC (C17); bounded: bounded/accel.py strxor_c')
+    install_lib(reg, SX + '_raw_strxor', 'native.strxor', {'strxor': nat, 'strxor_c': natc})
+    size = 'len(term1) <= 9223372036854775807'
+    if variant == 'ro':
+        reg.add(Contract(SX + 'strxor', params={'term1': 'buffer', 'term2': 'buffer', 'output': 'bytes|memoryview'}, requires=[size],
+                         raises={'TypeError': ('iff', 'len(term1) == len(term2)'), 'ValueError': ('iff', 'len(term1) != len(term2)')},
+                         ensures={'unreachable': 'False'}, modifies=[]))
+        return reg
+    produced = '(result if output is None else bytes(output))'
+    reg.add(Contract(SX + 'strxor', params={'term1': 'buffer', 'term2': 'buffer', 'output': 'none|bytearray'}, requires=[size],
+                     raises={'ValueError': ('iff', 'len(term1) != len(term2) or (output is not None and len(output) != len(term1))')},
+                     ensures={'value': '%s == spec.modes.xor(old(bytes(term1)), old(bytes(term2)))' % produced,
+                              'returns': '(output is None) == (result is not None)', 'bytes': 'output is None ==> isinstance(result, bytes)'},
+                     modifies=['output']))
+    reg.add(Contract(SX + 'strxor_c', params={'term': 'buffer', 'c': 'int', 'output': 'none|bytearray'}, requires=['len(term) <= 9223372036854775807'],
+                     raises={'ValueError': ('iff', 'c < 0 or c > 255 or (output is not None and len(output) != len(term))')},
+                     ensures={'value': '%s == spec.modes.xor_c(old(bytes(term)), c)' % produced,
+                              'returns': '(output is None) == (result is not None)'},
+                     modifies=['output']))
+    return reg
+
+
+def glue_registry():
+    """real Python logic of the glue: SmartPointer life cycle, is_writeable_buffer, _copy_bytes"""
+    from .base import base_registry
+    from . import cipher_factory as cf
+    reg = base_registry()
+    install_glue(reg)
+    cf.native_classes(reg)
+    stop = cf.stop_contract('native.raw_aes', 'AES_stop_operation', 0, 1)
+    fn = native_fn(reg, 'AES_stop_operation', stop)
+    # a SmartPointer as the cipher modules build it: nothing, or a live unowned AES state, with the matching stop function
+    reg.add(ClassContract(SMARTPTR, fields={'_raw_pointer': 'obj:native.State|none', '_destructor': ('const', fn)},
+                          valid=['self._raw_pointer is None or (self._raw_pointer.g_kind == 0 and not self._raw_pointer.g_freed and '
+                                 'not self._raw_pointer.g_owned and self._raw_pointer.g_impl == 0 and self._raw_pointer.g_alg == 1)']))
+    S = 'obj:' + SMARTPTR
+    reg.add(Contract(SMARTPTR + '.get', params={}, raises={}, ensures={'value': 'result is self._raw_pointer'}, modifies=[]))
+    reg.add(Contract('spec.modes.lemma_release', params={'sp': S}, raises={},
+                     ensures={'value': 'result[1] is result[0]', 'cleared': 'sp._raw_pointer is None',
+                              'not_freed': 'result[1] is None or not result[1].g_freed'},
+                     modifies=['sp._raw_pointer']))
+    # destruction: the destructor runs on the held pointer exactly once (its contract refuses a freed state: a second run
+    # would be a failed call-site obligation), never on a released (None) pointer; the second __del__ is a no-op
+    reg.add(Contract('spec.modes.lemma_del', params={'sp': S}, raises={},
+                     ensures={'freed_once': 'result is None or result.g_freed', 'cleared': 'sp._raw_pointer is None'},
+                     modifies=['sp._raw_pointer', 'sp._raw_pointer.g_freed']))
+    reg.add(Contract('spec.modes.lemma_release_del', params={'sp': S}, raises={},
+                     ensures={'handed_over': 'result is None or not result.g_freed', 'cleared': 'sp._raw_pointer is None'},
+                     modifies=['sp._raw_pointer']))
+    reg.add(Contract(R + 'is_writeable_buffer', params={'x': 'bytes|bytearray|memoryview|int|none|str'}, raises={},
+                     ensures={'value': 'result == isinstance(x, bytearray)'}, modifies=[],
+                     doc='(memoryview values of the engine are read-only views: False is the exact answer for them)'))
+    reg.add(Contract(U + 'py3compat._copy_bytes', params={'start': 'none|int', 'end': 'none|int', 'seq': 'buffer'}, raises={},
+                     # an immutable bytes object holding the selected bytes: for bytearray / memoryview a new object, hence independent
+                     # of later changes to the caller's buffer; the argument is not modified
+                     ensures={'value': 'result == bytes(seq)[start:end]', 'immutable': 'isinstance(result, bytes)'}, modifies=[]))
+    return reg
+
+
+def units(prop, tier):
+    from vf.pyunit import pyvc_unit
+    out = []
+    if prop in ('C09', 'C17', 'C19'):
+        out.append(pyvc_unit(prop, 'rawapi.strxor', lambda: strxor_registry(), [SX + 'strxor', SX + 'strxor_c']))
+        out.append(pyvc_unit(prop, 'rawapi.strxor.readonly_output', lambda: strxor_registry('ro'), [SX + 'strxor']))
+        out.append(pyvc_unit(prop, 'rawapi.buffers', glue_registry, [R + 'is_writeable_buffer', U + 'py3compat._copy_bytes']))
+    if prop in ('C17', 'C19'):
+        out.append(pyvc_unit(prop, 'rawapi.smartpointer', glue_registry,
+                             [SMARTPTR + '.get', 'spec.modes.lemma_release', 'spec.modes.lemma_del', 'spec.modes.lemma_release_del']))
+    return out
